@@ -3,7 +3,7 @@
 //! the previous call on the thread (or in the process) was for an input that its key confuses with this one.  The
 //! helpers here derive the next input of a single-thread sequence from the previous one by the relations such keys
 //! typically drop: the same month/day in a year that differs by a power of two, a power of ten, a calendar cycle
-//! (4, 19, 28, 60, 400), the digits of the year, the month mirrored across the half-year, the day a few days or a
+//! (4, 19, 28, 60, 400), a multiple of a typical table size (`TABLE_SIZES`, or any modulus up to 1100), the digits of the year, the month mirrored across the half-year, the day a few days or a
 //! month or a year away, or exactly the same input again.
 use crate::model::cal::{cal, exists, mdays, FIRST, LAST};
 use crate::util::Rng;
@@ -13,10 +13,31 @@ pub const YEAR_DELTAS: [i64; 56] = [
   -2048, 4000, -4000, 4096, -4096, 4096, 8192, -8192,
 ];
 
+/// Sizes a hand-written hash table, ring buffer or slot array typically has: powers of two, the primes next to
+/// them, round decimal sizes, and the lengths of calendar cycles.  A memo that files its entries under
+/// `key mod size` confuses two inputs that differ by a multiple of one of these.
+pub const TABLE_SIZES: [i64; 48] = [
+  8, 16, 31, 32, 37, 50, 53, 61, 64, 67, 97, 101, 127, 128, 131, 211, 251, 256, 257, 307, 360, 365, 499, 500, 503, 509, 512, 521, 769, 777, 997, 1000, 1009, 1013, 1021, 1024, 1031, 1543, 2039, 2048, 2053,
+  3079, 4093, 4096, 4099, 6151, 8191, 8192,
+];
+
+/// a multiple of a typical table size (or of an arbitrary modulus up to 1100), either sign
+pub fn modular_delta(rng: &mut Rng, span: i64) -> i64 {
+  let m = if rng.chance(2, 3) { *rng.pick(&TABLE_SIZES) } else { rng.range(2, 1100) };
+  let kmax = (span / m).clamp(1, 6);
+  let k = rng.range(1, kmax);
+  if rng.chance(1, 2) {
+    m * k
+  } else {
+    -m * k
+  }
+}
+
 /// a year related to y inside lo..=hi (falls back to a uniformly random year when the relation leaves the range)
 pub fn related_year(rng: &mut Rng, y: i64, lo: i64, hi: i64) -> i64 {
-  let cand = match rng.below(12) {
+  let cand = match rng.below(14) {
     0 => y,
+    5 | 6 => y + modular_delta(rng, hi - lo),
     // decimal relations: append / drop a digit, swap the last two digits
     1 => y * 10 + rng.range(0, 9),
     2 => y / 10,
@@ -61,8 +82,15 @@ fn mdays_nominal(y: i64, m: i64) -> i64 {
 pub fn related_day(rng: &mut Rng, n: i64) -> i64 {
   let c = cal();
   let (y, m, d) = c.date(n);
-  let cand = match rng.below(16) {
+  let cand = match rng.below(18) {
     0 | 1 => n,
+    // the day number a multiple of a table size away (a memo filed under `day number mod size`)
+    16 => n + modular_delta(rng, 100_000),
+    17 => {
+      // the same month and day a multiple of a table size of years away
+      let y2 = (y + modular_delta(rng, 9998)).clamp(1, 9999);
+      c.dn(y2, m, clip_day(y2, m, d))
+    }
     2 => n + if rng.chance(1, 2) { 1 } else { -1 },
     3 => n + rng.range(-8, 8),
     4 => n + rng.range(28, 32) * if rng.chance(1, 2) { 1 } else { -1 },
